@@ -164,6 +164,11 @@ func almostSafePrimeProductVerifyProof(N *big.Int, challenge *big.Int, index *bi
 		t2 := new(big.Int).ModInverse(t1, N)
 		t3 := new(big.Int).Exp(t1, big.NewInt(2), N)
 		t4 := new(big.Int).ModInverse(t3, N)
+		if t2 == nil || t4 == nil {
+			// t1 shares a factor with N (the base of this round, derived from the prover's nonce, is not a unit):
+			// nothing to compare with, and certainly not a proof
+			return false
+		}
 
 		ok1 := t1.Cmp(yg) == 0
 		ok2 := t2.Cmp(yg) == 0
